@@ -24,6 +24,7 @@ type cenv struct {
 	st   *State
 	old  *State
 	nq   *int
+	genericFn *ssa.Function // instance whose type arguments the clause's type parameters denote (call-site evaluation)
 }
 
 var untypedInt = types.Typ[types.UntypedInt]
@@ -105,7 +106,7 @@ func (fr *frame) evalClauseVal(cl *Clause, blk *ssa.BasicBlock, st *State) strin
 // evalCallClause evaluates a callee's clause at a call site.
 func (ex *Exec) evalCallClause(c *Contract, cl *Clause, vars map[string]Val, st, old *State) string {
 	n := 0
-	ce := &cenv{ex: ex, pkg: c.Pkg, vars: vars, st: st, old: old, nq: &n}
+	ce := &cenv{ex: ex, pkg: c.Pkg, vars: vars, st: st, old: old, nq: &n, genericFn: c.Fn}
 	if ex.callerFrame != nil {
 		ce.fr = ex.callerFrame
 		ce.blk = ex.callerFrame.curBlk
@@ -671,6 +672,18 @@ func (ce *cenv) resolveType(e ast.Expr) types.Type {
 				}
 			}
 		}
+		// a type parameter of the generic function under contract denotes the instance's type argument
+		for _, fn := range []*ssa.Function{ce.genericFn, frameFn(ce.fr)} {
+			if fn == nil || fn.Origin() == nil {
+				continue
+			}
+			tps := fn.Origin().TypeParams()
+			for i := 0; i < tps.Len() && i < len(fn.TypeArgs()); i++ {
+				if tps.At(i).Obj().Name() == x.Name {
+					return fn.TypeArgs()[i]
+				}
+			}
+		}
 	case *ast.SelectorExpr:
 		if id, ok := x.X.(*ast.Ident); ok {
 			if pkg := ce.importedPkg(id.Name); pkg != nil {
@@ -1077,6 +1090,40 @@ func (ce *cenv) pseudo(name string, x *ast.CallExpr) (Val, bool) {
 			v.L[j] = ex.heapGet(ce.st, rk, l.Sort)
 		}
 		return v, true
+	case "dnsAns": // dnsAns(q, v): the slice v is one the resolver returned for query text q
+		return boolVal(ex.dnsAnswered(ce.st, arg(0).L[0], arg(1))), true
+	case "iptext": // iptext(s): the textual form (net.IP.String) of the address whose raw bytes are the string s
+		ex.declareFun("net.iptext", []string{sStr}, sStr)
+		return Val{T: types.Typ[types.String], L: []string{app("net.iptext", arg(0).L[0])}}, true
+	case "cachedval": // cachedval(key, T): the stored value, read as a T
+		t := ce.resolveType(x.Args[1])
+		if t == nil {
+			ce.fail(x, "unknown type in cachedval()")
+		}
+		_, tag, ref, _ := ex.cacheArrays(ce.st)
+		k := arg(0).L[0]
+		return ex.unbox(ce.st, Val{L: []string{sel(tag, k), sel(ref, k)}}, t), true
+	case "cachedAs": // cachedAs(key, T): the stored value has dynamic type T
+		t := ce.resolveType(x.Args[1])
+		if t == nil {
+			ce.fail(x, "unknown type in cachedAs()")
+		}
+		_, tag, _, _ := ex.cacheArrays(ce.st)
+		return boolVal(eq(sel(tag, arg(0).L[0]), num(int64(ex.w.typeID(t))))), true
+	case "forallstr": // forallstr(k, body): quantifier over strings (ghost maps keyed by strings)
+		id := x.Args[0].(*ast.Ident)
+		*ce.nq++
+		bv := fmt.Sprintf("%s!q%d_%d", id.Name, ex.nfresh, *ce.nq)
+		ex.nfresh++
+		body := ex.pureScope(func() string {
+			return ce.with(id.Name, Val{T: types.Typ[types.String], L: []string{bv}}).eval(x.Args[1]).L[0]
+		})
+		return boolVal("(forall ((" + bv + " " + sStr + ")) " + body + ")"), true
+	case "cached": // cached(key): the go-cache holds an unexpired value for key
+		return boolVal(ex.cacheLive(ce.st, arg(0).L[0])), true
+	case "cachedref": // cachedref(key): reference of the stored value (payload of the stored interface)
+		_, _, ref, _ := ex.cacheArrays(ce.st)
+		return intVal(sel(ref, arg(0).L[0])), true
 	case "expected": // expected(counter): the counter's value once every goroutine spawned so far has finished
 		return intVal(ex.expectedGet(ce.st, x.Args[0].(*ast.Ident).Name)), true
 	case "ncalls": // ncalls(fn): number of contract calls of fn made so far by this unit
@@ -1362,4 +1409,11 @@ func (ce *cenv) tryEval(e ast.Expr) (v Val, ok bool) {
 		}
 	}()
 	return ce.eval(e), true
+}
+
+func frameFn(fr *frame) *ssa.Function {
+	if fr == nil {
+		return nil
+	}
+	return fr.fn
 }
